@@ -41,7 +41,8 @@ class Gen:
     def word(self):
         r = self.rng.random()
         if self.plain or r < 0.45:
-            return self.pick(["a", "b1", "x=y", "-n", "/t.f", "7", "12", "a.b", "A_z", "%s", "a:b", "k-2", "in", "do", "}x"][:12])
+            w = self.pick(["a", "b1", "x=y", "-n", "/t.f", "7", "12", "a.b", "A_z", "%s", "a:b", "k-2", "in", "do", "}x"][:12])
+            return "-e" if (w == "-n" and self.runnable) else w
         if r < 0.6:
             return self.pick(["$x", "${x:-d}", "$1", "\"$@\"", "$#"])
         if r < 0.72:
@@ -122,7 +123,7 @@ class Gen:
             self.feat.add("redir_first")
             rd = self.redir()
             if rd.startswith("&>") and self.clean:
-                rd = ">o1"
+                rd = ">%s" % self.fname()
             if rd.startswith("&>"):
                 self.feat.add("redir_first_amp")
             return " ".join([rd, "echo", self.word()])
@@ -324,8 +325,12 @@ def first_diff(a, b):
 
 
 def norm(s):
-    """error messages carry the line number of the definition's text: not part of the behaviour"""
-    return re.sub(r"line \d+:", "line N:", s)
+    """error messages carry the line number of the definition's text: not part of the behaviour; pipeline stages
+    that share a redirected stderr/stdout append to one file concurrently: lines are compared as a multiset"""
+    s = re.sub(r"line \d+:", "line N:", s)
+    head, sep, files = s.partition("|in=")
+    parts = (head + sep + files).split(";")
+    return ";".join("\n".join(sorted(p.split("\n"))) for p in parts)
 
 
 def bash_syntax_ok(src):
